@@ -10,13 +10,17 @@ THEOREMS = ["c13_find_from_entity", "c13_find_from_container", "c13_no_limit", "
 PRELUDES = [
     [["create", 0, "CSections", "a", "t", []], ["create", 1, "CSections", "b", "t", []], ["create", 2, "CSections", "a", "t", []],
      ["create", 0, "CSections", "b", "t", []], ["create", 4, "CSections", "a", "t", []], ["create", 5, "CSections", "b", "t", []],
-     ["lookup", 4, "CSections", ["name", "a"]], ["lookup", 1, "CSections", ["pos", 0]]],
+     ["lookup", 4, "CSections", ["name", "a"]], ["lookup", 1, "CSections", ["pos", 0]],
+     ["find", 0, 1, ["all"]], ["find", 0, 2, ["all"]], ["find", 0, 3, ["all"]], ["find", 1, 1, ["all"]], ["find", 1, 2, ["name", "a"]],
+     ["find", 0, None, ["all"]]],
     [["create", 0, "CBlocks", "B", "t", []], ["create", 1, "CSources", "a", "t", []], ["create", 2, "CSources", "b", "t", []],
      ["create", 3, "CSources", "a", "t", []], ["create", 1, "CSources", "b", "t", []], ["create", 5, "CSources", "a", "t", []],
      ["create", 1, "CDataArrays", "d", "t", [1]], ["append", 7, "LSources", 4], ["append", 7, "LSources", 2],
      ["create", 0, "CSections", "m", "t", []], ["set_link", 4, "RMetadata", 8], ["set_link", 7, "RMetadata", 8],
      ["set_link", 6, "RMetadata", 8], ["set_link", 5, "RMetadata", 8],
      ["referring", 8, "CSources"], ["referring", 8, "CDataArrays"], ["referring", 8, "CBlocks"],
+     ["find", 1, 1, ["all"]], ["find", 1, 2, ["all"]], ["find", 1, 3, ["all"]], ["find", 2, 1, ["all"]], ["find", 2, 2, ["all"]],
+     ["find", 1, 2, ["name", "a"]], ["find", 1, None, ["all"]],
      ["set_link", 4, "RMetadata", None], ["referring", 8, "CSources"], ["reopen", False],
      ["lookup", 0, "CSections", ["name", "m"]], ["referring", 1, "CSources"]],
     # nested sources reached through the source lists of an array, a tag and a multi-tag; parents asked on those objects,
